@@ -37,6 +37,15 @@ def check(s, brk):
         return f"make_pair_table raised {type(e).__name__}"
     if partner is None:
         return "ill-formed structure accepted"
+    # a result must be a fresh value: destroying it must not affect a later conversion
+    import copy
+    snap = copy.deepcopy(pt)
+    for row in pt:
+        row.clear(); row.append("?")
+    pt.clear()
+    pt = make_pair_table(s, strand_break=brk)
+    if pt != snap:
+        return "converting again after the first result was modified gives a different table (results share state)"
     # shape
     strands = s.split(brk)
     if [len(r) for r in pt] != [len(x) for x in strands]:
